@@ -352,15 +352,15 @@ impl Accept {
         final(self).same_ctl(old(self)),
 //@end
 
-//@extract file=actix-server/src/accept.rs item="impl Accept / fn remove_next" props=C08
+//@extract file=actix-server/src/accept.rs item="impl Accept / fn remove_next" props=C01,C08
 //@spec
     requires
         old(self).wf(),
         old(self).next < old(self).handles@.len(),
     ensures
-        final(self).handles@ == swap_removed(old(self).handles@, old(self).next as int),   // [C08]
-        final(self).avail@ == old(self).avail@.remove(old(self).handles@[old(self).next as int].spec_idx()),   // [C08]
-        final(self).srv.faulted() == old(self).srv.faulted().push(old(self).handles@[old(self).next as int].spec_idx()),   // [C08]
+        final(self).handles@ == swap_removed(old(self).handles@, old(self).next as int),   // [C01,C08]
+        final(self).avail@ == old(self).avail@.remove(old(self).handles@[old(self).next as int].spec_idx()),   // [C01,C08]
+        final(self).srv.faulted() == old(self).srv.faulted().push(old(self).handles@[old(self).next as int].spec_idx()),   // [C01,C08]
         final(self).next == old(self).next,
         final(self).same_ctl(old(self)),
 //@end
